@@ -99,6 +99,31 @@ FwCountsBehavioursInv ==
   (st.m = "findwalks" /\ st.pc = "done") =>
      LET c == NPaths(NI, inp, NI) IN
      \A k \in 1..NI : \A i, j \in 1..NI : st.Wq[k][i][j] = c[k, i, j]
+(* scale-regime operators (RandomWalk.tla, "walk counts beyond 32 bits"): the clipped  *)
+(* and the modular table ARE the table of powers clipped / reduced (small cap and       *)
+(* modulus, so that both bite on these inputs), and the loop's result, encoded as       *)
+(* mantissa / exponent / residue, passes every clause of Trace_RandomWalk!JudgeFwBig    *)
+FwBigLemmaInv ==
+  (st.m = "findwalks" /\ st.pc = "done") =>
+     LET n == NI
+         P == PowTab(n, inp, n)
+         C5 == ClipTab(n, inp, n, 5)
+         R7 == ModTab(n, inp, n, 7)
+         Wm == st.Wq
+         We == [k \in 1..n |-> Zero(n)]
+         Wr == [k \in 1..n |-> EMat(n, LAMBDA i, j : st.Wq[k][i][j] % BigP)]
+         wl == st.tot[2]
+     IN /\ \A k \in 0..n : \A i, j \in 1..n :
+              /\ C5[k][i][j] = (IF P[k][i][j] > 5 THEN 5 ELSE P[k][i][j])
+              /\ R7[k][i][j] = P[k][i][j] % 7
+        /\ BigEncodingOK(n, n, Wm, We, Wr, BigP) /\ BigFinite(n, n, Wm) /\ BigNonNeg(n, n, Wm)
+        /\ BigClipOK(n, n, C5, 5, Wm, We, 0)
+        /\ BigClipOK(n, n, ClipTab(n, inp, n, T24), T24, Wm, We, 0)
+        /\ BigModOK(n, n, ModTab(n, inp, n, BigP), We, Wr, 0)
+        /\ BigRecOK(n, n, InNbTab(n, inp), Wm, We, 0)
+        /\ BigRegularOK(n, n, inp, Wm, We, 0)
+        /\ BigTotalsOK(n, n, Wm, We, Wr, BigP, <<st.tot[1], 0, st.tot[1] % BigP>>,
+                       wl, [k \in 1..n |-> 0], [k \in 1..n |-> wl[k] % BigP])
 (* every behaviour prefix of the walker is a walk that Walks counts                  *)
 WalkerCountedInv ==
   (st.m = "walker" /\ st.pc = "walk") => Walks(NI, inp, st.len)[st.start][st.pos] >= 1
